@@ -65,3 +65,17 @@ Fixpoint prodN (sh : list N) : N := match sh with [] => 1 | n :: t => n * prodN 
 Fixpoint stridesN (sh : list N) : list N := match sh with [] => [] | _ :: t => prodN t :: stridesN t end.
 Fixpoint flatN (sh idx : list N) : N :=
   match sh, idx with _ :: t, i :: r => i * prodN t + flatN t r | _, _ => 0 end.
+
+(* ---------------------------------------------------------------- Array::get_axis: where the view's data starts *)
+(* before the repair of F27: `let offset = index * self.strides[axis.0]` in plain usize arithmetic *)
+Definition axis_offset_unrepaired_w (sh : list N) (a : nat) (i : N) : wres :=
+  if Nat.ltb a (length sh) && (i <? nth a sh 0) then
+    match checked_mul i (nth a (strides_w sh) 0) with Some o => WSome o | None => WOverflow end
+  else WNone.
+
+(* repaired: index.checked_mul(stride).and_then(|offset| data.get(offset..)).unwrap_or(&[]) - the position in the data
+   (of length len) at which the view starts; len itself = the view is empty *)
+Definition axis_offset_w (len : N) (sh : list N) (a : nat) (i : N) : option N :=
+  if Nat.ltb a (length sh) && (i <? nth a sh 0) then
+    match checked_mul i (nth a (strides_w sh) 0) with Some o => Some (N.min o len) | None => Some len end
+  else None.
